@@ -257,3 +257,23 @@ func init() {
 		fmt.Println("}")
 	}
 }
+
+func init() {
+	extraDumps["builders"] = func(w *World, args []string) {
+		for _, k := range w.KindsL {
+			for _, m := range w.methodsOf(k) {
+				if isCodecMethod(m.Decl.Name.Name) {
+					continue
+				}
+				fs := w.Interpret(m, "builder")
+				if len(fs.Stores) == 0 {
+					continue
+				}
+				fmt.Printf("== %s\n", m.Key)
+				for _, s := range fs.Stores {
+					fmt.Printf("   %s %s %s [%s]\n", s.Path, s.Op, s.Val.valString(), s.Guard)
+				}
+			}
+		}
+	}
+}
